@@ -54,6 +54,7 @@ func checkC04(c *Ctx, r *Report) {
 	r.Decided = []string{
 		"R6 parsed max-age seconds are bounded (<= MaxInt64/1e9) on every path before the multiplication that turns them into a Duration, so a positive max-age cannot wrap to a negative / tiny lifetime",
 		"R7 HTTP dates in package headers are parsed with net/http.ParseTime (IMF-fixdate, RFC 850 and asctime), not with a single layout",
+		"R8 every max-age directive is judged where it is parsed: the value of that iteration is tested against one second and the short side sets no-cache (or raises a flag that is never lowered and becomes no-cache after the loop) — a repeated directive cannot hide a max-age=0",
 		"R1 every store into the cache from package proxy is dominated by shouldResponseBeCached()==true, and that predicate is exactly ShouldCache(live ignore_cache_control) ∧ StatusCode==200 ∧ Method==GET (no conjunct missing, none added)",
 		"R2 ShouldCache: every refusal is gated by ignore_cache_control==false (except the Range guard) and refusals exist for the no-cache flag, max-age<1 and a past Expires (Expires only without a positive max-age)",
 		"R3 the directive table of parseCacheControl contains no-store, no-cache and private, compared after a case fold; the parser receives all Cache-Control lines; a parse failure leaves the header 'present, not storable'",
@@ -157,6 +158,7 @@ func checkC04(c *Ctx, r *Report) {
 	}
 
 	// ---- R2: the whole truth table of ShouldCache (helpers expanded)
+	maxAgeWholeSeconds := fieldAlwaysMultipleOf(li, headersPkg, "cacheControl", "maxAge", 1000000000)
 	for _, f := range c.FuncsNamed("(*" + headersPkg + ".HeaderDirectives).ShouldCache") {
 		ignoreName := "$ignoreCacheControl"
 		if len(f.Params) >= 2 {
@@ -175,6 +177,9 @@ func checkC04(c *Ctx, r *Report) {
 			case strings.HasSuffix(a, ".noCache"):
 				return "noCache"
 			case strings.HasSuffix(a, ".maxAge>0"):
+				return "maxAgePos"
+			case maxAgeWholeSeconds && maxAgeAboveSubSecond(a):
+				// `maxAge >= time.Second`: the same test as `maxAge > 0` for a lifetime that is always a whole number of seconds
 				return "maxAgePos"
 			case strings.HasPrefix(a, "Before(") && strings.Contains(a, ".Expires") && strings.Contains(a, "Now()") && strings.Index(a, ".Expires") < strings.Index(a, "Now()"):
 				return "expPast"
@@ -407,8 +412,17 @@ func checkC04(c *Ctx, r *Report) {
 	// multiplication with 1e9; without an upper bound on the seconds the product wraps (max-age=31536000000, a year in
 	// milliseconds, becomes negative => treated as max-age<1 => not stored; 18446744074 becomes 0.29s).
 	nMul := 0
+	// the parser, the literals in it and the same-package helpers it calls (parseMaxAge(arg))
+	ccFns := map[*ssa.Function]bool{}
 	for _, f := range li.Fns {
-		if !strings.HasPrefix(fnKey(f), headersPkg+".parseCacheControl") {
+		if strings.HasPrefix(fnKey(f), headersPkg+".parseCacheControl") {
+			for _, hc := range helperContexts(f, 2) {
+				ccFns[hc.fn] = true
+			}
+		}
+	}
+	for _, f := range li.Fns {
+		if !ccFns[f] {
 			continue
 		}
 		eachInstr(f, func(in ssa.Instruction) {
@@ -509,6 +523,94 @@ func checkC04(c *Ctx, r *Report) {
 		})
 	}
 	r.Floor("C04.R6", nMul, 1, "seconds-to-Duration conversions in the Cache-Control parser")
+
+	// ---- R8: every max-age directive is judged on its own. A field may carry the directive more than once
+	// (`max-age=0, max-age=3600`, or two Cache-Control lines): a value below one second anywhere means "do not store".
+	// The test is made on the value parsed in that iteration, and its "short" side sets no-cache, or a flag that is
+	// only ever raised and turns into no-cache after the loop. A test made after the loop on the stored lifetime sees
+	// only the last directive.
+	nParse := 0
+	for f := range ccFns {
+		if !strings.HasPrefix(fnKey(f), headersPkg+".parseCacheControl") {
+			continue // the loop body (the function itself or the literal a range-over-func loop becomes)
+		}
+		eachInstr(f, func(in ssa.Instruction) {
+			call, ok := in.(*ssa.Call)
+			if !ok {
+				return
+			}
+			parses := false
+			switch calleeName(call) {
+			case "strconv.ParseInt", "strconv.ParseUint", "strconv.Atoi":
+				parses = true
+			default:
+				if h := helperBody(call); h != nil {
+					eachCall(h, func(_ ssa.CallInstruction, n string) {
+						if n == "strconv.ParseInt" || n == "strconv.ParseUint" || n == "strconv.Atoi" {
+							parses = true
+						}
+					})
+				}
+			}
+			if !parses {
+				return
+			}
+			pv := extractOf(call, 0)
+			if pv == nil {
+				return
+			}
+			nParse++
+			judged := false
+			for _, b := range f.Blocks {
+				iff, isIf := b.Instrs[len(b.Instrs)-1].(*ssa.If)
+				if !isIf {
+					continue
+				}
+				cv, positive := stripNot(iff.Cond)
+				bo, isB := cv.(*ssa.BinOp)
+				if !isB {
+					continue
+				}
+				k, isC := constInt(bo.Y)
+				if !isC || !derivesFrom(bo.X, func(v ssa.Value) bool { return v == ssa.Value(pv) }) {
+					continue
+				}
+				// which edge is the "less than one second" side
+				shortIdx := -1
+				switch {
+				case (bo.Op == token.LSS && k == 1) || (bo.Op == token.LEQ && k == 0) || (bo.Op == token.LSS && k == 1000000000):
+					shortIdx = 0
+				case (bo.Op == token.GEQ && k == 1) || (bo.Op == token.GTR && k == 0) || (bo.Op == token.GEQ && k == 1000000000):
+					shortIdx = 1
+				}
+				if shortIdx < 0 {
+					continue
+				}
+				if !positive {
+					shortIdx = 1 - shortIdx
+				}
+				// on that side: no-cache is set, or a flag is raised
+				hits := walkFrom(pos{b.Succs[shortIdx], 0}, nil, func(i2 ssa.Instruction) bool {
+					st, isS := i2.(*ssa.Store)
+					if !isS {
+						return false
+					}
+					if tv, isK := constBool(st.Val); !isK || !tv {
+						return false
+					}
+					if fv, _, is := fieldOf(st.Addr); is && fname(fv) == "noCache" {
+						return true
+					}
+					return stickyNoCacheFlag(f, st.Addr)
+				}, func(fb *ssa.BasicBlock, si int) bool { return fb == b }) // do not go round the loop back through this test
+				if len(hits) > 0 {
+					judged = true
+				}
+			}
+			r.Check(judged, "C04.R8", fmt.Sprintf("%s: each max-age directive is judged when it is parsed (#%d)", fnKey(f), nParse), c.InstrPos(call), "the value parsed in this iteration is tested against one second; the short side sets no-cache (or a flag that becomes no-cache after the loop)", "a max-age of less than one second does not mark the response no-cache where it is parsed: when the directive occurs twice (`max-age=0, max-age=3600`) only the last value is judged, and a response the origin declared stale is stored for an hour")
+		})
+	}
+	r.Floor("C04.R8", nParse, 1, "max-age parse sites in the Cache-Control parser")
 
 	// ---- R7: HTTP dates are read in all three formats an HTTP recipient must accept (IMF-fixdate, RFC 850, asctime):
 	// a future Expires in an obsolete format is "no past Expires", not an unparseable one
@@ -683,4 +785,163 @@ func helperResultBounded(h *ssa.Function, idx int, ok func(ret *ssa.Return, v ss
 		}
 	})
 	return all && n > 0
+}
+
+// maxAgeAboveSubSecond: the atom is `<...>.maxAge>K` with 0 <= K < one second in nanoseconds.
+func maxAgeAboveSubSecond(a string) bool {
+	i := strings.LastIndex(a, ".maxAge>")
+	if i < 0 {
+		return false
+	}
+	var k int64
+	if _, err := fmt.Sscanf(a[i+len(".maxAge>"):], "%d", &k); err != nil {
+		return false
+	}
+	rest := a[i+len(".maxAge>"):]
+	for _, ch := range rest {
+		if ch < '0' || ch > '9' {
+			return false
+		}
+	}
+	return k >= 0 && k < 1000000000
+}
+
+// fieldAlwaysMultipleOf: every value stored into field `field` of struct pkg.typ anywhere in the package is zero or a
+// product with a constant that is a multiple of unit (time.Duration(seconds) * time.Second), also when it comes back
+// from a same-package helper. A zero-valued struct counts (0 is a multiple).
+func fieldAlwaysMultipleOf(li *LockInfo, pkg, typ, field string, unit int64) bool {
+	var multiple func(v ssa.Value, d int) bool
+	multiple = func(v ssa.Value, d int) bool {
+		if d > 6 {
+			return false
+		}
+		if k, isC := constInt(v); isC {
+			return k%unit == 0
+		}
+		switch x := v.(type) {
+		case *ssa.BinOp:
+			if x.Op == token.MUL {
+				if k, isC := constInt(x.Y); isC && k%unit == 0 {
+					return true
+				}
+				if k, isC := constInt(x.X); isC && k%unit == 0 {
+					return true
+				}
+			}
+			return false
+		case *ssa.Convert:
+			return multiple(x.X, d+1)
+		case *ssa.ChangeType:
+			return multiple(x.X, d+1)
+		case *ssa.Phi:
+			for _, e := range x.Edges {
+				if !multiple(e, d+1) {
+					return false
+				}
+			}
+			return len(x.Edges) > 0
+		case *ssa.Extract:
+			if call, isCall := x.Tuple.(*ssa.Call); isCall {
+				if h := helperBody(call); h != nil {
+					return helperResultBounded(h, x.Index, func(_ *ssa.Return, rv ssa.Value) bool { return multiple(rv, d+1) })
+				}
+			}
+		case *ssa.Call:
+			if h := helperBody(x); h != nil {
+				return helperResultBounded(h, 0, func(_ *ssa.Return, rv ssa.Value) bool { return multiple(rv, d+1) })
+			}
+		}
+		return false
+	}
+	n, all := 0, true
+	for _, f := range li.Fns {
+		if originPkgPath(f) != pkg {
+			continue
+		}
+		eachInstr(f, func(in ssa.Instruction) {
+			st, ok := in.(*ssa.Store)
+			if !ok {
+				return
+			}
+			fa, isFA := st.Addr.(*ssa.FieldAddr)
+			if !isFA || !strings.HasSuffix(fieldKeyOf(fa.X, fa.Field), "."+typ+"."+field) {
+				return
+			}
+			n++
+			if !multiple(st.Val, 0) {
+				all = false
+			}
+		})
+	}
+	return n > 0 && all
+}
+
+// stickyNoCacheFlag: addr is a bool variable of the parser (captured by the loop literal, or local) that is never set
+// to false except by its declaration, and whose truth, tested after the loop, leads to a store of true into noCache.
+func stickyNoCacheFlag(f *ssa.Function, addr ssa.Value) bool {
+	var cell ssa.Value = addr
+	owner := f
+	if fv, isFV := addr.(*ssa.FreeVar); isFV {
+		cell = freeVarBinding(fv)
+		owner = f.Parent()
+	}
+	al, isA := cell.(*ssa.Alloc)
+	if !isA || owner == nil {
+		return false
+	}
+	// stores through the cell in the owner and in its literals
+	okStores := true
+	check := func(g *ssa.Function, a ssa.Value) {
+		for _, st := range storesTo(a) {
+			tv, isK := constBool(st.Val)
+			if !isK {
+				okStores = false
+				continue
+			}
+			if !tv && g != owner {
+				okStores = false // reset inside the loop body
+			}
+		}
+	}
+	check(owner, al)
+	for _, cl := range closuresOf(owner) {
+		for _, fv := range cl.FreeVars {
+			if freeVarBinding(fv) == ssa.Value(al) {
+				check(cl, fv)
+			}
+		}
+	}
+	if !okStores {
+		return false
+	}
+	// after the loop: if flag { noCache = true }
+	leads := false
+	for _, b := range owner.Blocks {
+		iff, isIf := b.Instrs[len(b.Instrs)-1].(*ssa.If)
+		if !isIf {
+			continue
+		}
+		cv, positive := stripNot(iff.Cond)
+		ld, isLd := cv.(*ssa.UnOp)
+		if !isLd || ld.Op != token.MUL || ld.X != ssa.Value(al) {
+			continue
+		}
+		idx := 0
+		if !positive {
+			idx = 1
+		}
+		hits := walkFrom(pos{b.Succs[idx], 0}, nil, func(i2 ssa.Instruction) bool {
+			st, isS := i2.(*ssa.Store)
+			if !isS {
+				return false
+			}
+			tv, isK := constBool(st.Val)
+			fv, _, is := fieldOf(st.Addr)
+			return isK && tv && is && fname(fv) == "noCache"
+		}, nil)
+		if len(hits) > 0 {
+			leads = true
+		}
+	}
+	return leads
 }
